@@ -3,6 +3,7 @@
 //!
 //!   skv-harness <prop> gen  --seed S --cases N --tier quick|thorough --out ops.txt --stats stats.json
 //!   skv-harness <prop> exec --ops ops.txt --out impl.txt
+mod bgwork;
 mod c04;
 mod c05;
 mod c08;
@@ -101,6 +102,10 @@ fn main() {
         ("c16", "exec") => c16::exec(&args),
         ("c16s", "gen") => c16s::gen(&args),
         ("c16s", "exec") => c16s::exec(&args),
+        ("probe", "node-sizes") => {
+            println!("{:?}", surrealkv::verif::memtable::node_sizes());
+            0
+        }
         ("probe", "failed-open") => probe::failed_open(),
         ("probe", "repair-then-commit") => probe::repair_then_commit(),
         ("locks", "gen") => locks::gen(&args),
@@ -110,6 +115,8 @@ fn main() {
         ("c19", "gen") => c19::gen(&args),
         ("c19", "exec") => c19::exec(&args),
         ("c19", "child") => c19::child(&args),
+        ("bgwork", "gen") => bgwork::gen(&args),
+        ("bgwork", "exec") => bgwork::exec(&args),
         ("stall", "gen") => stall::gen(&args),
         ("stall", "exec") => stall::exec(&args),
         ("c12", "gen") => c12::gen(&args),
